@@ -137,8 +137,14 @@ impl Mach {
     /// memory is written into the storage arrays directly, as the ELF loader does.
     #[inline]
     pub fn store_real(&mut self, a: u32, v: u8) {
-        if (IO1_LO..=IO1_HI).contains(&a) && !sem::is_port_reg(a) {
+        let plain = matches!(a, VEC_LO..=VEC_HI | DRAM_LO..=DRAM_HI | RAM_LO..=RAM_HI);
+        if plain || ((IO1_LO..=IO1_HI).contains(&a) && !sem::is_port_reg(a)) {
             let _ = self.cpu.bus.write(a, v);
+            if plain {
+                // (a store the implementation refuses or diverts is not the harness's to hide: the byte is then
+                // simply not there and the next comparison with the shadow says so)
+                return;
+            }
         } else if let Some(s) = self.real_slot(a) {
             *s = v;
         }
